@@ -23,6 +23,7 @@ const W_QUEUE_FULL_WAIT: u64 = 64;
 const W_CANCELLED: u64 = 128;
 const W_COLLIDED: u64 = 256;
 const W_SAME_ID_AGAIN: u64 = 512;
+const W_LATE_REQUEST: u64 = 1024;
 
 #[derive(Clone, Debug)]
 struct Req {
@@ -122,6 +123,7 @@ fn exec(sc: &Scn, render: bool) -> RunOutput {
     let fault_kinds = [Cost::Fault; 4];
     let mut fault_taken = false;
     let mut cancelled: Option<usize> = None;
+    let mut late_issued = false;
     loop {
         if w.sim.steps >= 5000 {
             horizon = true;
@@ -133,6 +135,13 @@ fn exec(sc: &Scn, render: bool) -> RunOutput {
             kinds.extend_from_slice(&fault_kinds);
         }
         if en.is_empty() && (fault_taken || !sc.faults) {
+            // the connection has ended and everything has settled: a request issued NOW must resolve as well
+            // (with false or Closed), it must not be left pending for ever
+            if matches!(fault, Some(Fault::CutBoth | Fault::DropResponderMux)) && !late_issued && w.mux[0].is_some() {
+                late_issued = true;
+                w.spawn_bind_requester(0, 200, 1, b"late".to_vec(), 9);
+                continue;
+            }
             break;
         }
         let c = choose(&kinds);
@@ -288,6 +297,15 @@ fn exec(sc: &Scn, render: bool) -> RunOutput {
     if sc.sequential_same_id && ids.len() >= 2 && ids.iter().all(|i| *i == Some(5)) {
         wit |= W_SAME_ID_AGAIN;
     }
+    if late_issued {
+        let r = obs.events.iter().find_map(|e| if let Ev::BindResult { side: 0, n: 200, res } = e { Some(res.clone()) } else { None });
+        match r {
+            Some(Ok(false)) => wit |= W_LATE_REQUEST,
+            Some(Err(e)) if e == "Closed" => wit |= W_LATE_REQUEST,
+            Some(other) => push_viol(&mut viol, "bind.late-request-result", format!("a bind request issued after the connection had ended ({fault:?}) resolved {other:?}; only false or Closed are possible")),
+            None => push_viol(&mut viol, "bind.late-request-hangs", format!("a bind request issued after the connection had ended ({fault:?}) and everything had settled never resolved")),
+        }
+    }
     // answers out of arrival order were exercised?
     if sc.order.windows(2).any(|p| p[0] > p[1]) {
         wit |= W_OUT_OF_ORDER;
@@ -432,11 +450,11 @@ pub fn run(args: &Args) -> Report {
         fault: 1,
         total_wall: Duration::from_secs(if thorough { 1500 } else { 50 }),
         max_execs_per_case: 500_000,
-        required_witnesses: W_TRUE | W_FALSE | W_NEVER_PENDING | W_OUT_OF_ORDER | W_DISABLED | W_FAULT | W_QUEUE_FULL_WAIT | W_CANCELLED | W_COLLIDED | W_SAME_ID_AGAIN,
+        required_witnesses: W_TRUE | W_FALSE | W_NEVER_PENDING | W_OUT_OF_ORDER | W_DISABLED | W_FAULT | W_QUEUE_FULL_WAIT | W_CANCELLED | W_COLLIDED | W_SAME_ID_AGAIN | W_LATE_REQUEST,
         adaptive: thorough,
-        witness_names: &[("resolved_true", W_TRUE), ("resolved_false", W_FALSE), ("unanswered_stays_pending", W_NEVER_PENDING), ("answers_out_of_arrival_order", W_OUT_OF_ORDER), ("binds_disabled", W_DISABLED), ("connection_end_injected", W_FAULT), ("more_requests_than_bind_buffer", W_QUEUE_FULL_WAIT), ("request_abandoned_by_requester", W_CANCELLED), ("peer_open_collides_with_pending_bind_id", W_COLLIDED), ("sequential_requests_drew_the_same_id", W_SAME_ID_AGAIN)],
+        witness_names: &[("resolved_true", W_TRUE), ("resolved_false", W_FALSE), ("unanswered_stays_pending", W_NEVER_PENDING), ("answers_out_of_arrival_order", W_OUT_OF_ORDER), ("binds_disabled", W_DISABLED), ("connection_end_injected", W_FAULT), ("more_requests_than_bind_buffer", W_QUEUE_FULL_WAIT), ("request_abandoned_by_requester", W_CANCELLED), ("peer_open_collides_with_pending_bind_id", W_COLLIDED), ("sequential_requests_drew_the_same_id", W_SAME_ID_AGAIN), ("request_issued_after_the_connection_ended_resolved", W_LATE_REQUEST)],
     };
-    rep.rule = "psim: requester issues 1..3 concurrent request_bind (types 1/3, hosts {1 B, empty, 255 B}, ports {0, 8080, 65535}); the responder application (bind_buffer_size 1 or 4, or binds disabled) collects the requests and answers them following EVERY answer vector over {accept, reject, drop the request, never answer} in (every / selected) permutation order; optional stream + datagram exchange alongside, optional request in the opposite direction, optional stream opened by the responder side whose generator draws the id of the pending first request (Connect on an id held by a bind request: must be rejected, the bind unaffected, the stream must come up on a fresh id), optional sequential issue of the requests by one task whose generator draws the same flow id every time (each request must still get its own answer), optional connection end (cut both, drop either Multiplexor) or abandonment of the first request by its requester (future dropped) at every point; every schedule <= k deviations. Oracle: each request resolves at most once; true iff the peer application accepted that very flow id; false iff it rejected/dropped it or binds are disabled; unanswered requests stay pending while the connection is up; after a connection end only false/Closed; the peer application is shown exactly type/host/port/id of a Bind frame on the wire and every request; resolved requests leave no slot behind".into();
+    rep.rule = "psim: requester issues 1..3 concurrent request_bind (types 1/3, hosts {1 B, empty, 255 B}, ports {0, 8080, 65535}); the responder application (bind_buffer_size 1 or 4, or binds disabled) collects the requests and answers them following EVERY answer vector over {accept, reject, drop the request, never answer} in (every / selected) permutation order; optional stream + datagram exchange alongside, optional request in the opposite direction, optional stream opened by the responder side whose generator draws the id of the pending first request (Connect on an id held by a bind request: must be rejected, the bind unaffected, the stream must come up on a fresh id), optional sequential issue of the requests by one task whose generator draws the same flow id every time (each request must still get its own answer), optional connection end (cut both, drop either Multiplexor) or abandonment of the first request by its requester (future dropped) at every point; every schedule <= k deviations. Oracle: each request resolves at most once; true iff the peer application accepted that very flow id; false iff it rejected/dropped it or binds are disabled; unanswered requests stay pending while the connection is up; after a connection end only false/Closed, also for a request issued after the end once everything has settled; the peer application is shown exactly type/host/port/id of a Bind frame on the wire and every request; resolved requests leave no slot behind".into();
     rep.assumptions = vec!["flow ids are paired through the Bind frames seen on the wire (reference decoder)".into()];
     run_cases(args, &mut rep, cases, &plan);
     rep
